@@ -343,6 +343,7 @@ func (*socket) Info() protocol.Info {
 
 func (s *socket) AddPipe(pp protocol.Pipe) error {
 
+	s.Lock()
 	p := &pipe{
 		p:      pp,
 		s:      s,
@@ -350,7 +351,6 @@ func (s *socket) AddPipe(pp protocol.Pipe) error {
 		closeQ: make(chan struct{}),
 	}
 	pp.SetPrivate(p)
-	s.Lock()
 	if s.closed {
 		s.Unlock()
 		return protocol.ErrClosed
